@@ -118,6 +118,21 @@ CHECKS = {
         technique="fault-script enumeration + Hypothesis on a virtual-clock loop; exhaustive outcome histories vs reference counter; generated payloads",
         engine="vloop+siminv",
     ),
+    "C01": dict(
+        category="exploration",
+        text="For a deterministic family of commands per framing the valid answer is built by the reference codec and the "
+             "validator is run on EVERY truncation, EVERY single-bit flip, all 256 values at every header/length/echo/checksum "
+             "position, inserted/deleted/duplicated slices, trailing junk, answers to other requests/framings and exception frames; "
+             "Hypothesis adds multi-byte mutations with re-sealed checksums, splices and random bytes; atheris (thorough) fuzzes the "
+             "validators coverage-guided with the oracle inside the target. Outcomes must be accept/refuse/partial/rejected only, "
+             "accept implies the independent acceptance predicate N, partial implies length == len(x) < expected; a sample is served "
+             "end-to-end and execute() may only return bytes that satisfy N and were actually sent.",
+        design_ref="DESIGN.md section 4, C01; D1",
+        note="N contains exactly the conditions the property enumerates (not the AA55 marker / comm address / MBAP fields). "
+             "Trusted: vlib/refwire.py.",
+        technique="exhaustive structured mutation neighbourhood + Hypothesis + atheris, implication oracle against an independent predicate",
+        engine="refwire+vloop",
+    ),
 }
 
 def main():
